@@ -70,6 +70,22 @@ def single_param_groups(seed, n):
         ("Debug", "variant", [("name", "identbool", False)]),
         ("Debug", "variant", [("named_field", "bool", True), ("name", "identbool", "Q")]),
         ("Into", "type", [("type", "type", "u8"), ("bound", "bound", ("custom", ["G: ::core::convert::Into<u8>"]))]),
+        # what a predicate or a path may contain: every spelling has to take it or every spelling has to refuse it
+        ("Debug", "type", [("bound", "bound", ("custom", ["*const G: ::core::marker::Send"]))]),
+        ("Debug", "type", [("bound", "bound", ("custom", ["*mut G: ::core::marker::Send", "G: 'static"]))]),
+        ("Clone", "type", [("bound", "bound", ("custom", ["&'static G: ::core::marker::Send"]))]),
+        ("Clone", "type", [("bound", "bound", ("custom", ["[G; 2]: ::core::clone::Clone", "(G, u8): ::core::marker::Send"]))]),
+        ("Hash", "type", [("bound", "bound", ("custom", ["fn(G) -> G: ::core::marker::Send"]))]),
+        ("Hash", "type", [("bound", "bound", ("custom", ["for<'x> &'x G: ::core::hash::Hash"]))]),
+        ("PartialEq", "type", [("bound", "bound", ("custom", ["<G as ::core::iter::Iterator>::Item: ::core::cmp::PartialEq"]))]),
+        ("PartialEq", "type", [("bound", "bound", ("custom", ["G: ?::core::marker::Sized + ::core::cmp::PartialEq"]))]),
+        ("Default", "type", [("bound", "bound", ("custom", ["::std::vec::Vec<G>: ::core::default::Default + 'static"]))]),
+        ("Debug", "field", [("method", "path", "::verif_rt::fmt_alt::<G>")]),
+        ("Debug", "field", [("method", "path", "<G as ::verif_rt::Tr>::f")]),
+        ("Hash", "field", [("method", "path", "<G>::f")]),
+        ("Clone", "field", [("method", "path", "self::f")]),
+        ("PartialEq", "field", [("method", "path", "crate::m::f")]),
+        ("Ord", "field", [("method", "path", "super::f")]),
         ("Into", "field", [("type", "type", "u8"), ("method", "path", "::verif_rt::into_u8_alt")]),
     ]
     for trait, level, params in specs:
@@ -106,11 +122,17 @@ def items_ms(res):
     return collections.Counter((it.get("hdr", ""), it.get("body") or "") for it in res.get("items", []))
 
 
-def judge_group(chk, gid, texts, results, desc=None):
+def judge_group(chk, gid, texts, results, desc=None, refusal_ok=False):
     if any(r is None or r.get("st") in ("harness", "crash", "timeout") for r in results):
         chk.inconc("runner")
         return
     ok = [i for i, r in enumerate(results) if r["st"] == "ok"]
+    if not ok and refusal_ok:
+        # every spelling of the entry is refused: that is interchangeable as well
+        chk.evaluations += len(texts) - 1
+        chk.held(digest("\n".join(sorted(set(texts)))), len(set(texts)) >= 2, 0)
+        chk.count("all-refused:" + gid.split("#")[0])
+        return
     if not ok:
         # no spelling is accepted: nothing to compare (the request itself is the generator's or C01's problem)
         chk.inconc("no-member-accepted")
@@ -161,7 +183,7 @@ def main(tier, seed, scale=1.0):
             feed.append(("s%d_%d" % (gi, mi), t))
     res = B.run_inproc(feed, items=True)
     for gi, (gid, texts) in enumerate(sys_groups):
-        judge_group(chk, gid + "#sys", texts, [res.get("s%d_%d" % (gi, mi)) for mi in range(len(texts))])
+        judge_group(chk, gid + "#sys", texts, [res.get("s%d_%d" % (gi, mi)) for mi in range(len(texts))], refusal_ok=True)
     # random groups
     batch = 1500
     for k0 in range(0, n, batch):
